@@ -10,6 +10,10 @@ Sub-checks
           exact decision on the rationals the floats denote; plus float tripwires (variational inequality against random
           feasible competitors, an independent eigen-decomposition reference, isometry operator space <-> stacked space,
           idempotence, fixed points, object-level == variable-level, snapshots).
+  closures  all six closure factories func_calc_proj_{eq,ineq}_constraint(_with_var), func_calc_proj_physical(_with_var):
+          object flag {True, False} x requested flag {None, True, False} (and mode_proj_order / max_iteration /
+          eps_truncate_imaginary_part different from the object's own); closure(var) == static variable-level function at the
+          REQUESTED flag == to_var(object-level projection) at that flag; those are tied to the model / the certificate.
   errors  error branches (Povm equality projection on a non-Hermitian basis).
   large   raw Gaussian parameter vectors of scale 1e3 under default settings, object- and variable-level (the property
           quantifies over scales up to 1e3; before repair truncate-hs-relative-imag-threshold these raised ValueError).
@@ -555,20 +559,20 @@ def rand_psd_competitors(nrng, X, Y, s, count):
     return out
 
 
-def check_projection_pair(ctx, case, site, bucket, Ys, Xs, atol, nrng, replay, ncomp=20):
+def check_projection_pair(ctx, case, site, bucket, Ys, Xs, atol, nrng, replay, ncomp=20, sub="ineq"):
     """certificate + tripwires for input operators Ys and output operators Xs. returns True if all fine"""
     ok_all = True
     for idx, (Y, X) in enumerate(zip(Ys, Xs)):
         s, eps, delta = cert_consts(X, Y, atol)
         ah = max(antiherm(X), antiherm(Y))
         if ah > 1e-9 * s + atol:          # defects below the code's own truncation threshold carry no information
-            ctx.violation("ineq", site, "not-hermitian", "operator %d is not Hermitian (%.3e) (%s)" % (idx, ah, bucket), replay)
+            ctx.violation(sub, site, "not-hermitian", "operator %d is not Hermitian (%.3e) (%s)" % (idx, ah, bucket), replay)
             ok_all = False
             continue
         ok, det = run_cert(ctx, X, Y, eps, delta)
         if not ok:
             which = "infeasible-output" if not det["psd(X+eps)"] else ("not-nearest" if (not det["psd(X-Y+eps)"] or not det["|<X,X-Y>|<=delta"]) else "certificate-input")
-            ctx.violation("ineq", site, which,
+            ctx.violation(sub, site, which,
                           "nearest-PSD certificate rejected for operator %d (%s): %s eps=%.3e delta=%.3e |Y|=%.3e" % (idx, bucket, det, eps, delta, s), replay)
             ok_all = False
             continue
@@ -578,13 +582,13 @@ def check_projection_pair(ctx, case, site, bucket, Ys, Xs, atol, nrng, replay, n
             dYZ = float(np.linalg.norm(Y - Z) ** 2); dXZ = float(np.linalg.norm(X - Z) ** 2)
             S2 = max(dYZ, dYX, dXZ, s * s, atol * atol)
             if dYZ < dYX + dXZ - 1e-9 * S2 - 2 * delta - 2 * eps * abs(np.trace(Z).real):
-                ctx.violation("ineq", site, "not-nearest", "variational inequality fails against a PSD competitor: |Y-Z|^2=%.6e < |Y-X|^2+|X-Z|^2=%.6e (operator %d, %s) although the certificate accepted" % (dYZ, dYX + dXZ, idx, bucket), replay)
+                ctx.violation(sub, site, "not-nearest", "variational inequality fails against a PSD competitor: |Y-Z|^2=%.6e < |Y-X|^2+|X-Z|^2=%.6e (operator %d, %s) although the certificate accepted" % (dYZ, dYX + dXZ, idx, bucket), replay)
                 ok_all = False
                 break
         R = ref_psd_proj(Y)
         # the code zeroes coefficients below atol: up to k^2 coefficients in an orthonormal basis, i.e. up to k*atol in Frobenius norm
         if float(np.linalg.norm(R - X)) > 1e-9 * s + 2 * X.shape[0] * atol:
-            ctx.violation("ineq", site, "differs-from-reference", "output differs from an independent eigen-decomposition reference by %.3e (operator %d, %s) although the certificate accepted" % (float(np.linalg.norm(R - X)), idx, bucket), replay)
+            ctx.violation(sub, site, "differs-from-reference", "output differs from an independent eigen-decomposition reference by %.3e (operator %d, %s) although the certificate accepted" % (float(np.linalg.norm(R - X)), idx, bucket), replay)
             ok_all = False
     return ok_all
 
@@ -781,7 +785,7 @@ def chk_large(ctx, case):
             ctx.violation("large", C.__name__ + ".calc_proj_ineq_constraint_with_var", "object-vs-variable",
                           "variable-level and object-level inequality projections differ by %.3e (%s)" % (maxabs(out, stacked(p)), bucket), case)
         check_projection_pair(ctx, case, C.__name__ + ".calc_proj_ineq_constraint", bucket,
-                              operators(T, c, x, m), operators(T, c, stacked(p), m), atol, np.random.default_rng(case["seed"]), case, ncomp=8)
+                              operators(T, c, x, m), operators(T, c, stacked(p), m), atol, np.random.default_rng(case["seed"]), case, ncomp=8, sub="large")
 
 
 def sub_large(ctx):
@@ -827,11 +831,12 @@ def chk_closures(ctx, case):
                               "static variable-level equality projection (flag %s) differs from the model (%s/%s)" % (eff, T, case["sys"]), case)
                 return
             st_in = np.array(C.calc_proj_ineq_constraint_with_var(c, var.copy(), on_para_eq_constraint=eff), dtype=np.float64)
-            ob_in = np.array(ob.calc_proj_ineq_constraint().to_var(), dtype=np.float64)
-            # nearest-point-ness of the static inequality result at this flag: verified certificate
-            xin = stacked(ob); xout = stacked(ob.generate_from_var(st_in.copy(), on_para_eq_constraint=eff))
-            check_projection_pair(ctx, case, name + ".calc_proj_ineq_constraint_with_var", "%s/%s/closures/flag=%s" % (T, case["sys"], eff),
-                                  operators(T, c, xin, m), operators(T, c, xout, m), atol, nrng, case, ncomp=4)
+            pob = ob.calc_proj_ineq_constraint()
+            ob_in = np.array(pob.to_var(), dtype=np.float64)
+            # nearest-point-ness at this flag: verified certificate on the object-level result (for flag True to_var drops the
+            # coefficients the parametrisation fixes, so the variable-level result is judged through its equality with to_var(this))
+            check_projection_pair(ctx, case, name + ".calc_proj_ineq_constraint", "%s/%s/closures/flag=%s" % (T, case["sys"], eff),
+                                  operators(T, c, stacked(ob), m), operators(T, c, stacked(pob), m), atol, nrng, case, ncomp=4, sub="closures")
             # physical projection with NON-default arguments (a few Dykstra steps, the other projection order)
             o_ph = build(T, c, x, m, eff, mode_proj_order=mode_other)
             st_ph = np.array(o_ph.calc_proj_physical_with_var(var.copy(), on_para_eq_constraint=eff, max_iteration=iters), dtype=np.float64)
@@ -873,11 +878,11 @@ def chk_closures(ctx, case):
                         ctx.violation("closures", "QOperation." + fname, "mutates-argument", "closure modified its var argument (%s)" % combo, dict(case, own=own, req=FLAG_NAME[req]))
                     dev = max(maxabs(out, want), maxabs(out, want2))
                     if dev > tl:
-                        ctx.violation("closures", "QOperation." + fname, "ignores-requested-flag" if (req is not None and req != own and maxabs(out, want) > tl) else "object-vs-variable",
+                        ctx.violation("closures", "QOperation." + fname, "ignores-requested-argument" if (req is not None and req != own and maxabs(out, want) > tl) else "object-vs-variable",
                                       "closure(var) differs by %.3e from the static variable-level function / to_var(object-level projection) at the REQUESTED parametrisation (%s, effective flag %s, scale %g, %s): the two forms do not compute the same point" % (dev, combo, eff, scale, case["sys"]),
                                       dict(case, own=own, req=FLAG_NAME[req]))
         # the object's own eps_truncate_imaginary_part must reach the variable-level closure (it also zeroes small real coefficients)
-        eps = 1e-3 * scale
+        eps = 0.05 * scale
         o_eps = build(T, c, x, m, False, eps_truncate_imaginary_part=eps)
         v0 = ref[False]["var"]
         got = np.array(o_eps.func_calc_proj_ineq_constraint_with_var(False)(v0.copy()), dtype=np.float64)
@@ -1029,6 +1034,8 @@ def run(ctx):
                 "already-feasible / physical), all four types, m=2..5, 1 qubit / qutrit / 2 qubits (qubit x qutrit thorough), both "
                 "flags, object- and variable-level; ineq: inputs generated on the operator side (complex Hermitian: generic, degenerate "
                 "spectra, PSD, rank-deficient boundary, negative definite, zero, barely infeasible) or as raw parameter vectors; "
+                "closures: raw parameter vectors (scales 1e-2..10), 1 qubit / qutrit / 2 qubits / qubit x qutrit states, every (own flag, requested flag) pair, "
+                "non-trivial = the requested flag differs from the object's own; "
                 "eigclip: the ineq generators restricted to operators of size <= 16, flag False; "
                 "non-trivial = eq: non-zero input; ineq / eigclip: complex (not real-symmetric) operators with eigenvalues of both signs; "
                 "distinct = distinct (type, system, m, flag, seed)")
